@@ -24,6 +24,9 @@ func init() {
 		rules.PartitionCompleteness(p, r, "C01-e")
 		rules.EndpointRoles(p, r, "C01")
 		rules.QueryPathWrites(p, r, "C01-pure")
+		rules.LoopCarriedDefaults(p, r, "C01-loop")
+		rules.ContainerPortProtocolDefault(p, r, "C01-proto")
+		rules.LabelMatchingByLibrary(p, r, "C01-match")
 		r.Floor("C01-a", 20)
 		r.Assume("relevant-field table written from the property statement (NetworkPolicySpec/Rule/Peer/IPBlock/Port, ContainerPort, ObjectMeta)")
 		r.Assume("endpoint roles are seeded at CheckIfAllowed and AllAllowedConnectionsBetweenWorkloadPeers: first peer parameter = source, second = destination")
